@@ -264,6 +264,8 @@ def _check_accessors(ctx, case, seq, g, method):
     chk('finding_sites', [_code(s.value) for s in seq.finding_sites], [tuple(s) for s in g['finding_sites']])
     chk('lateralities', [_code(s.laterality) if s.laterality is not None else None for s in seq.finding_sites],
         [tuple(x) if x else None for x in g['lateralities']])
+    chk('topographical modifiers', [_code(s.topographical_modifier) if s.topographical_modifier is not None else None for s in seq.finding_sites],
+        [('TM1', '99VERIF') if (x and x[0] == 'L9') else None for x in g['lateralities']])
     chk('method', _code(seq.method) if seq.method is not None else None, tuple(g['method']) if g['method'] else None)
     def mdesc(m):
         return (_code(m.name), float(m.value), _code(m.unit), _code(m.qualifier) if m.qualifier is not None else None,
@@ -296,6 +298,13 @@ def _check_accessors(ctx, case, seq, g, method):
             if roi is not None:
                 chk('roi graphic type', str(roi.graphic_type.value), ref['graphic'])
                 chk('roi source image', sop(roi.ContentSequence[0]), tuple(ref['source']))
+                sf_ = roi.ContentSequence[0].ReferencedSOPSequence[0]
+                fr_ = None
+                if 'ReferencedFrameNumber' in sf_:
+                    v_ = sf_.ReferencedFrameNumber
+                    fr_ = [int(x) for x in v_] if sf_['ReferencedFrameNumber'].VM > 1 else [int(v_)]
+                chk('roi source frames', fr_, ref.get('source_frames'))
+                chk('roi pixel origin', str(roi.PixelOriginInterpretation) if 'PixelOriginInterpretation' in roi else None, ref.get('origin'))
         elif t == 'region3d':
             chk('roi class', type(roi).__name__, 'ImageRegion3D')
             if roi is not None:
@@ -334,6 +343,8 @@ def _check_accessors(ctx, case, seq, g, method):
             if rs is not None:
                 chk('segmentation instance', (str(rs.referenced_sop_class_uid), str(rs.referenced_sop_instance_uid)), tuple(ref['seg']))
                 chk('segment number', [int(x) for x in rs.referenced_segment_numbers], [ref['segment']])
+                chk('segment frames', [int(x) for x in rs.referenced_frame_numbers] if rs.referenced_frame_numbers is not None else None,
+                    ref.get('frames'))
                 chk('segment sources', [sop(x) for x in rs.source_images_for_segmentation], [tuple(s) for s in (ref['sources'] or [])])
                 ss = rs.source_series_for_segmentation
                 chk('segment series', str(ss.value) if ss is not None else None, ref['series'])
